@@ -1,6 +1,8 @@
 CONSTANTS
+  N = @N@
+  MaxW = 2
   MaxConn = @MAXCONN@
 INIT Init
 NEXT Next
-INVARIANTS MSatisfiesP E2EKept
+INVARIANTS MSatisfiesP NoCrash
 CHECK_DEADLOCK FALSE
